@@ -40,6 +40,10 @@ class Unsupported(Exception):
 
 NODE, EDGE, TREE, BOOL, INT, LEN, NONE, UNIT, KW = (("node",), ("edge",), ("tree",), ("bool",), ("int",),
                                                     ("len",), ("none",), ("unit",), ("kw",))
+TAXON = ("taxon",)          # identity of a Taxon object
+NFN = ("nfn",)              # callable node -> truth value (filter_fn)
+RNG = ("rng",)              # scripted random.Random: the remaining script
+TAXFN = ("taxfn",)          # TaxonNamespace.get_taxa(labels=...) of the tree's namespace
 
 
 def TList(t): return ("list", t)
@@ -56,6 +60,10 @@ def coq_ty(t):
     if k == "len": return "(option Z)"
     if k == "unit": return "unit"
     if k == "kw": return "(option Z * option Z * option Z)"
+    if k == "taxon": return "Z"
+    if k == "nfn": return "((mnode G) -> bool)"
+    if k == "taxfn": return "((list Z) -> (list Z))"
+    if k == "rng": return "(list (list nat))"
     if k == "list": return "(list %s)" % coq_ty(t[1])
     if k == "opt": return "(option %s)" % coq_ty(t[1])
     if k == "tup": return "(%s * %s)" % (coq_ty(t[1]), coq_ty(t[2]))
@@ -69,7 +77,8 @@ ERRS = {"TypeError": "TypeErr", "ValueError": "ValueErr", "IndexError": "IndexEr
 FIELDS = {
     "node": {"_parent_node": ("rd_parent", "wr_parent", TOpt(NODE)),
              "_child_nodes": ("rd_kids", "wr_kids", TList(NODE)),
-             "_edge": ("rd_edge", None, EDGE)},
+             "_edge": ("rd_edge", None, EDGE),
+             "taxon": ("rd_taxon", None, TOpt(TAXON))},
     "edge": {"_head_node": ("rd_head", None, NODE),
              "length": ("rd_length", "wr_length", LEN)},
     "tree": {"_seed_node": ("rd_seed", "wr_seed", NODE),
@@ -84,13 +93,14 @@ def dump(e):
 
 
 class Env:
-    def __init__(self, vars=None, narrowed=None, stale=False):
+    def __init__(self, vars=None, narrowed=None, stale=False, dirty=False):
         self.vars = dict(vars or {})          # name -> ("val", text, ty) | ("alias", node text)
         self.narrowed = dict(narrowed or {})  # dump(expr) -> (text, ty)   (state-dependent reads)
         self.stale = stale                    # a _child_nodes field was rebound: aliases unusable
+        self.dirty = dirty                    # the object graph was written since the flag was reset
 
     def copy(self):
-        return Env(self.vars, self.narrowed, self.stale)
+        return Env(self.vars, self.narrowed, self.stale, self.dirty)
 
     def bind(self, name, text, ty):
         e = self.copy()
@@ -107,6 +117,7 @@ class Env:
         """the object graph was written: forget what was learnt about state-dependent expressions"""
         e = self.copy()
         e.narrowed = {}
+        e.dirty = True
         if rebinds_kids:
             e.stale = True
         return e
@@ -139,6 +150,8 @@ class Fn:
         self.ltypes = ltypes or {}    # declared types of local variables
         self.use_extern = set(use_extern)   # callees used as operations of the interface
         self.needs_fuel = False
+        self.recursive = False
+        self.implicit = []            # implicit parameters: taxon_namespace, ns_get_taxa
         self.name = gen.coq_name(cls, fndef.name, self.spec)
         self.counter = 0
         self.handlers = []            # try/except: (caught set | None for bare, continuation)
@@ -168,8 +181,10 @@ class Fn:
         for n, d in zip(names[1:], defaults[1:]):
             if n not in self.ptypes:
                 raise Unsupported("%s: parameter %s has no declared type" % (self.name, n))
-            if d is not None and not (isinstance(d, ast.Constant) and d.value in (None, True, False)):
+            if d is not None and not isinstance(d, ast.Constant):
                 raise Unsupported("%s: default of %s" % (self.name, n))
+            if d is not None and not (d.value is None or isinstance(d.value, bool)):
+                d = ast.Name(id="<non-translatable default>", ctx=ast.Load())   # a call that omits it fails closed
             params.append((n, self.ptypes[n], d))
         if a.kwarg:
             if self.ptypes.get(a.kwarg.arg) != KW:
@@ -208,7 +223,7 @@ class Fn:
         if k == "bool": return text
         if k == "list": return "(negb (py_is_empty %s))" % text
         if k == "opt": return "(py_is_some %s)" % text
-        if k in ("node", "edge"): return "true"
+        if k in ("node", "edge", "taxon"): return "true"
         if k == "none": return "false"
         if k == "int": return "(negb (Z.eqb %s 0))" % text
         raise Unsupported("%s: truth value of %r" % (self.name, ty))
@@ -262,10 +277,14 @@ class Fn:
                 and isinstance(e.operand.value, int):
             return k("(%d)" % -e.operand.value, INT, env)
         if isinstance(e, ast.List):
+            if len(e.elts) == 1:
+                return self.cexpr(e.elts[0], env, lambda a, ta, e1: k("[%s]" % a, TList(ta), e1))
             if e.elts:
-                raise Unsupported("%s: non-empty list display" % self.name)
+                raise Unsupported("%s: list display with %d elements" % (self.name, len(e.elts)))
             return k("[]", TList(("any",)), env)
         if isinstance(e, ast.Tuple):
+            if not e.elts:
+                return k("[]", TList(("any",)), env)      # (): only iterated / extended / returned below
             if len(e.elts) != 2:
                 raise Unsupported("%s: tuple arity" % self.name)
             return self.cexpr(e.elts[0], env, lambda a, ta, e1: self.cexpr(
@@ -273,14 +292,31 @@ class Fn:
         if isinstance(e, ast.Attribute):
             return self.cexpr(e.value, env, lambda vt, vty, e1: self.deref(vt, vty, e1, lambda vt2, vty2, e2:
                               self.attribute(vt2, vty2, e.attr, e2, k), expr=e.value))
+        if isinstance(e, ast.Subscript) and self.is_rng_sample1(e, env):
+            # rng.sample(L, 1)[0]: the next script entry [i] picks L[i]
+            c = e.value
+            rn = c.func.value.id
+            return self.cexpr(c.args[0], env, lambda lt, lty, e1: (
+                "(match %s with\n  | [dv_i] :: %s => (match nth_error %s dv_i with\n  | Some dv_pick => %s\n  | None => MFuel\n  end)\n  | _ => MFuel\n  end)"
+                % (e1.vars[rn][1], rn, lt, k("dv_pick", lty[1], e1.bind(rn, rn, RNG)))))
         if isinstance(e, ast.Subscript):
             return self.cexpr(e.value, env, lambda lt, lty, e1: self.cexpr(e.slice, e1, lambda it, ity, e2:
                               self.subscript(lt, lty, it, ity, e2, k)))
         if isinstance(e, ast.Call):
             return self.call(e, env, k)
+        if isinstance(e, ast.ListComp):
+            return self.comprehension(e, env, k)
         if isinstance(e, (ast.Compare, ast.BoolOp)) or (isinstance(e, ast.UnaryOp) and isinstance(e.op, ast.Not)):
             raise Unsupported("%s: boolean expression used as a value" % self.name)
         raise Unsupported("%s: expression %s" % (self.name, type(e).__name__))
+
+    def is_rng_sample1(self, e, env):
+        c = e.value
+        return (isinstance(c, ast.Call) and isinstance(c.func, ast.Attribute) and c.func.attr == "sample"
+                and isinstance(c.func.value, ast.Name) and c.func.value.id in env.vars
+                and env.vars[c.func.value.id][2:] == (RNG,) and len(c.args) == 2 and not c.keywords
+                and isinstance(c.args[1], ast.Constant) and c.args[1].value == 1
+                and isinstance(e.slice, ast.Constant) and e.slice.value == 0)
 
     def deref(self, vt, vty, env, k, expr=None):
         """receiver of an attribute / method: None raises AttributeError"""
@@ -306,6 +342,10 @@ class Fn:
             rd, _wr, ty = f
             arg = "" if vty == TREE else " " + vt
             return self.let(attr.strip("_").split("_")[0] or "f", "(%s G s%s)" % (rd, arg), lambda t: k(t, ty, env))
+        if vty == TREE and attr == "taxon_namespace":
+            # iterating / testing the namespace: the list of its taxa, an implicit parameter
+            self.need_implicit("taxon_namespace")
+            return k("taxon_namespace", TList(TAXON), env)
         prop = self.gen.props.get((cls, attr))
         if prop:
             sig = self.gen.registry.get((cls, prop[0], ()))
@@ -314,6 +354,13 @@ class Fn:
             arg = "" if vty == TREE else " " + vt
             return self.let(attr.split("_")[0], "(%s s%s)" % (sig["coq"], arg), lambda t: k(t, sig["ret"], env))
         raise Unsupported("%s: attribute %s.%s" % (self.name, cls, attr))
+
+    IMPLICIT = [("taxon_namespace", ("list", ("taxon",))), ("ns_get_taxa", ("taxfn",))]
+
+    def need_implicit(self, name):
+        if name not in self.implicit:
+            self.implicit.append(name)
+            self.implicit.sort(key=[n for n, _t in self.IMPLICIT].index)
 
     def subscript(self, lt, lty, it, ity, env, k):
         if lty[0] != "list" or ity != INT:
@@ -325,7 +372,19 @@ class Fn:
     def call(self, e, env, k):
         f = e.func
         if isinstance(f, ast.Name):
-            if f.id in ("len", "list", "enumerate", "bool") and len(e.args) == 1 and not e.keywords:
+            if f.id in env.vars and env.vars[f.id][0] == "val" and env.vars[f.id][2] == NFN:
+                if len(e.args) != 1 or e.keywords:
+                    raise Unsupported("%s: call form of %s" % (self.name, f.id))
+                return self.cexpr(e.args[0], env, lambda at, aty, e1: k(
+                    "(%s %s)" % (env.vars[f.id][1], self.coerce(at, aty, NODE)), BOOL, e1))
+            if f.id == "set" and len(e.args) == 1 and not e.keywords:
+                # set(taxa): only membership is asked of it below (Taxon.__eq__/__hash__ are identity)
+                def ks(at, aty, e1):
+                    if aty != TList(TAXON):
+                        raise Unsupported("%s: set of %r" % (self.name, aty))
+                    return k(at, aty, e1)
+                return self.cexpr(e.args[0], env, ks)
+            if f.id in ("len", "list", "enumerate", "bool", "tuple") and len(e.args) == 1 and not e.keywords:
                 if f.id == "bool":
                     return self.cond(e.args[0], env, lambda e1: k("true", BOOL, e1), lambda e1: k("false", BOOL, e1), as_value=True)
 
@@ -334,7 +393,7 @@ class Fn:
                         raise Unsupported("%s: %s of %r" % (self.name, f.id, aty))
                     if f.id == "len":
                         return k("(py_len %s)" % at, INT, e1)
-                    if f.id == "list":
+                    if f.id in ("list", "tuple"):
                         return k(at, aty, e1)
                     return k("(py_enumerate %s)" % at, TList(TTup(INT, aty[1])), e1)
                 return self.cexpr(e.args[0], env, kk)
@@ -349,8 +408,49 @@ class Fn:
             kw = env.vars[self.kwarg][1]
             return ("(let '(%s, s) := (let '(kw_taxon, kw_label, kw_len) := %s in new_node G kw_taxon kw_label kw_len s) in\n  %s)"
                     % (v, kw, k(v, NODE, env.changed())))
+        if (f.attr == "get_taxa" and isinstance(f.value, ast.Attribute) and f.value.attr == "taxon_namespace"
+                and isinstance(f.value.value, ast.Name) and f.value.value.id == "self" and self.cls == "Tree"
+                and not e.args and len(e.keywords) == 1 and e.keywords[0].arg == "labels"):
+            self.need_implicit("ns_get_taxa")
+            return self.cexpr(e.keywords[0].value, env, lambda at, aty, e1: k(
+                "(ns_get_taxa %s)" % self.coerce(at, aty, TList(INT)), TList(TAXON), e1))
         return self.cexpr(f.value, env, lambda rt, rty, e1: self.deref(rt, rty, e1, lambda rt2, rty2, e2:
                           self.method(rt2, rty2, f.attr, e, e2, k), expr=f.value))
+
+    def pure_cond(self, e, env):
+        """condition of a comprehension: no reads of the object graph, no raises"""
+        if isinstance(e, ast.UnaryOp) and isinstance(e.op, ast.Not):
+            return "(negb %s)" % self.pure_cond(e.operand, env)
+        if isinstance(e, ast.Call) and isinstance(e.func, ast.Name) and e.func.id in env.vars \
+                and env.vars[e.func.id][2] == NFN and len(e.args) == 1 and isinstance(e.args[0], ast.Name) \
+                and env.vars.get(e.args[0].id, (None, None, None))[2] == NODE and not e.keywords:
+            return "(%s %s)" % (env.vars[e.func.id][1], env.vars[e.args[0].id][1])
+        if isinstance(e, ast.Compare) and len(e.ops) == 1 and isinstance(e.ops[0], (ast.In, ast.NotIn)) \
+                and isinstance(e.left, ast.Name) and isinstance(e.comparators[0], ast.Name):
+            a, b = env.vars.get(e.left.id), env.vars.get(e.comparators[0].id)
+            if a and b and a[0] == b[0] == "val" and a[2] == TAXON and b[2] == TList(TAXON):
+                r = "(py_in Z.eqb %s %s)" % (a[1], b[1])
+                return "(negb %s)" % r if isinstance(e.ops[0], ast.NotIn) else r
+        raise Unsupported("%s: comprehension condition %s" % (self.name, ast.unparse(e)))
+
+    def comprehension(self, e, env, k):
+        """[x for x in L if c]  with c pure"""
+        if len(e.generators) != 1:
+            raise Unsupported("%s: nested comprehension" % self.name)
+        g = e.generators[0]
+        if g.is_async or not isinstance(g.target, ast.Name) or len(g.ifs) > 1 \
+                or not (isinstance(e.elt, ast.Name) and e.elt.id == g.target.id):
+            raise Unsupported("%s: comprehension form" % self.name)
+        x = g.target.id
+
+        def kl(lt, lty, e1):
+            if lty[0] != "list":
+                raise Unsupported("%s: comprehension over %r" % (self.name, lty))
+            if not g.ifs:
+                return k(lt, lty, e1)
+            c = self.pure_cond(g.ifs[0], e1.bind(x, x, lty[1]))
+            return self.let("sel", "(filter (fun %s => %s) %s)" % (x, c, lt), lambda t: k(t, lty, e1))
+        return self.cexpr(g.iter, env, kl)
 
     def method(self, rt, rty, meth, e, env, k):
         if rty[0] == "list":
@@ -372,7 +472,39 @@ class Fn:
             v = self.fresh("nodes")
             return ("(match x_postorder_nodes G s with\n  | Some %s => %s\n  | None => MFuel\n  end)"
                     % (v, k(v, TList(NODE), env)))
+        if cls == "Node" and meth == "leaf_iter" and not e.args and not e.keywords:
+            v = self.fresh("leaves")
+            return ("(match x_leaf_nodes_of G s %s with\n  | Some %s => %s\n  | None => MFuel\n  end)"
+                    % (rt, v, k(v, TList(NODE), env)))
+        if cls == "Tree" and meth in ("preorder_node_iter", "nodes", "internal_nodes", "postorder_edge_iter") \
+                and not e.args and not e.keywords:
+            # node sequences of the traversals (property C15 relates the iterators of Tree to these orders:
+            # Tree.nodes() = pre-order, internal_nodes() = its non-leaves, postorder_edge_iter = edges of the
+            # post-order); read when the call is made
+            v = self.fresh("nodes")
+            if meth == "postorder_edge_iter":
+                return ("(match x_postorder_nodes G s with\n  | Some %s => %s\n  | None => MFuel\n  end)"
+                        % (v, self.let("edges", "(map (rd_edge G s) %s)" % v, lambda t: k(t, TList(EDGE), env))))
+            if meth == "internal_nodes":
+                sig = self.gen.registry[("Node", "is_internal", ())]
+                return ("(match x_preorder_nodes G s with\n  | Some %s => %s\n  | None => MFuel\n  end)"
+                        % (v, self.let("internal", "(filter (fun dv_n => %s s dv_n) %s)" % (sig["coq"], v),
+                                       lambda t: k(t, TList(NODE), env))))
+            return ("(match x_preorder_nodes G s with\n  | Some %s => %s\n  | None => MFuel\n  end)"
+                    % (v, k(v, TList(NODE), env)))
+        if cls == "Tree" and meth == "leaf_node_iter" and not e.args and not e.keywords:
+            self.gen.check_wrapper("leaf_node_iter", "return self.seed_node.leaf_iter(filter_fn=filter_fn)")
+            v = self.fresh("leaves")
+            return ("(match x_leaf_nodes G s with\n  | Some %s => %s\n  | None => MFuel\n  end)"
+                    % (v, k(v, TList(NODE), env)))
         cands = {key: v for key, v in self.gen.registry.items() if key[0] == cls and key[1] == meth}
+        if not cands and cls == self.cls and meth == self.fn.name and not self.spec:
+            # direct recursion: a Fixpoint on the fuel
+            self.recursive = True
+            self.needs_fuel = True
+            cands = {(cls, meth, ()): {"coq": self.name, "params": self.params, "kind": "eff", "ret": self.ret,
+                                       "spec": (), "rebinds_kids": True, "needs_fuel": True, "implicit": []}}
+            self.gen.registry_tmp = cands
         if not cands:
             raise Unsupported("%s: call of untranslated %s.%s" % (self.name, cls, meth))
         base = cands.get((cls, meth, ())) or list(cands.values())[0]
@@ -419,6 +551,9 @@ class Fn:
                 if (cls, meth, sub) in self.gen.registry:
                     sig = self.gen.registry[(cls, meth, sub)]
                     break
+                if (cls, meth, sub) in cands:
+                    sig = cands[(cls, meth, sub)]
+                    break
             if sig:
                 break
         if sig is None:
@@ -436,11 +571,16 @@ class Fn:
                     raise Unsupported("%s: method call inside try" % self.name)
                 if sig["rebinds_kids"]:
                     self.rebinds_kids = True
+                pre = []
                 if sig.get("needs_fuel"):
-                    raise Unsupported("%s: call of the fuelled %s" % (self.name, sig["coq"]))
+                    self.needs_fuel = True
+                    pre.append("fuel")
+                for n in sig.get("implicit", []):
+                    self.need_implicit(n)
+                    pre.append(n)
                 r = self.fresh("r")
                 return ("(match %s %s s with\n  | MOk %s s => %s\n  | MErr dv_e s => (MErr dv_e s)\n  | MFuel => MFuel\n  end)"
-                        % (sig["coq"], " ".join(recv + acc), r,
+                        % (sig["coq"], " ".join(pre + recv + acc), r,
                            k(r, sig["ret"], env1.changed(sig["rebinds_kids"]))))
             n, ty, a = todo[i]
             if isinstance(a, tuple) and a[0] == "kw":
@@ -547,6 +687,9 @@ class Fn:
             if ta == NODE and tb == TList(NODE):
                 r = "(py_in (mg_eqb G) %s %s)" % (a, b)
                 return "(negb %s)" % r if isinstance(op, ast.NotIn) else r
+            if ta == TAXON and tb == TList(TAXON):
+                r = "(py_in Z.eqb %s %s)" % (a, b)
+                return "(negb %s)" % r if isinstance(op, ast.NotIn) else r
             raise Unsupported("%s: membership of %r in %r" % (self.name, ta, tb))
         if ta == INT and tb == INT:
             f = {ast.Gt: "Z.gtb", ast.GtE: "Z.geb", ast.Lt: "Z.ltb", ast.LtE: "Z.leb"}.get(type(op))
@@ -591,9 +734,15 @@ class Fn:
             return self.cond(s.test, env, nxt, lambda e1: self.rz("AssertErr", e1))
         if isinstance(s, ast.Raise):
             exc = s.exc.func if isinstance(s.exc, ast.Call) else s.exc
-            if not (isinstance(exc, ast.Name) and exc.id in ERRS) or s.cause:
+            if s.cause:
                 raise Unsupported("%s: raise form" % self.name)
-            return self.rz(ERRS[exc.id], env)
+            if isinstance(exc, ast.Name) and exc.id in ERRS:
+                return self.rz(ERRS[exc.id], env)
+            if (isinstance(exc, ast.Name) and exc.id == "Exception") or \
+                    (isinstance(exc, ast.Attribute) and isinstance(exc.value, ast.Name) and exc.value.id == "error"
+                     and exc.attr == "SeedNodeDeletionException"):
+                return self.rz("OtherErr", env)      # core.exc_enum maps them to OtherErr as well
+            raise Unsupported("%s: raise form" % self.name)
         if isinstance(s, ast.Return):
             if self.loop:
                 raise Unsupported("%s: return inside a loop" % self.name)
@@ -632,7 +781,7 @@ class Fn:
 
     def call_stmt(self, c, env, nxt):
         f = c.func
-        if isinstance(f, ast.Attribute) and f.attr in ("append", "remove", "insert", "clear", "reverse"):
+        if isinstance(f, ast.Attribute) and f.attr in ("append", "remove", "insert", "clear", "reverse", "extend"):
             def kplace(node, e1):
                 def with_list(cur):
                     if f.attr == "append" and len(c.args) == 1:
@@ -662,13 +811,27 @@ class Fn:
                 return r
             # a local list value:  x.append(v)
             if (isinstance(f.value, ast.Name) and f.value.id in env.vars and env.vars[f.value.id][0] == "val"
-                    and env.vars[f.value.id][2][0] == "list" and f.attr == "append" and len(c.args) == 1 and not c.keywords):
+                    and env.vars[f.value.id][2][0] == "list" and f.attr in ("append", "extend") and len(c.args) == 1
+                    and not c.keywords):
                 name = f.value.id
                 _k, lt, lty = env.vars[name]
                 if name in [p[0] for p in self.params] or lty[1] == ("any",):
-                    raise Unsupported("%s: append to %s" % (self.name, name))
+                    raise Unsupported("%s: %s to %s" % (self.name, f.attr, name))
+                if f.attr == "extend":
+                    return self.cexpr(c.args[0], env, lambda at, aty, e2: "(let %s := (%s ++ %s) in\n  %s)"
+                                      % (name, lt, self.coerce(at, aty, lty), nxt(e2.bind(name, name, lty))))
                 return self.cexpr(c.args[0], env, lambda at, aty, e2: "(let %s := (%s ++ [%s]) in\n  %s)"
                                   % (name, lt, self.coerce(at, aty, lty[1]), nxt(e2.bind(name, name, lty))))
+        # rng.shuffle(c): the next script entry permutes the local list c
+        if (isinstance(f, ast.Attribute) and f.attr == "shuffle" and isinstance(f.value, ast.Name)
+                and f.value.id in env.vars and env.vars[f.value.id][2:] == (RNG,) and len(c.args) == 1
+                and isinstance(c.args[0], ast.Name) and c.args[0].id in env.vars and not c.keywords):
+            rn, ln = f.value.id, c.args[0].id
+            lv = env.vars[ln]
+            if lv[0] != "val" or lv[2][0] != "list" or ln in [p[0] for p in self.params]:
+                raise Unsupported("%s: shuffle of %s" % (self.name, ln))
+            return ("(match %s with\n  | dv_pm :: %s => (match py_nths %s dv_pm with\n  | Some %s => %s\n  | None => MFuel\n  end)\n  | [] => MFuel\n  end)"
+                    % (env.vars[rn][1], rn, lv[1], ln, nxt(env.bind(rn, rn, RNG).bind(ln, ln, lv[2]))))
         return self.cexpr(c, env, lambda _t, _ty, e1: nxt(e1))
 
     def store_attr(self, tgt, vt, vty, env, nxt):
@@ -708,7 +871,8 @@ class Fn:
             raise Unsupported("%s: chained assignment" % self.name)
         tgt = s.targets[0]
         if isinstance(tgt, ast.Name):
-            if tgt.id in self.RESERVED or tgt.id in [p[0] for p in self.params] or tgt.id == "self":
+            if tgt.id in self.RESERVED or tgt.id in self.spec or tgt.id == "self" or (
+                    tgt.id in [p[0] for p in self.params] and self.loop):
                 raise Unsupported("%s: assignment to %s" % (self.name, tgt.id))
             # alias of a child list object
             if isinstance(s.value, ast.Attribute) and s.value.attr == "_child_nodes":
@@ -784,7 +948,8 @@ class Fn:
         for n in ast.walk(ast.Module(body=list(stmts), type_ignores=[])):
             if isinstance(n, ast.Name) and isinstance(n.ctx, ast.Store) and n.id not in out:
                 out.append(n.id)
-            if (isinstance(n, ast.Call) and isinstance(n.func, ast.Attribute) and n.func.attr in ("append", "pop")
+            if (isinstance(n, ast.Call) and isinstance(n.func, ast.Attribute)
+                    and n.func.attr in ("append", "pop", "shuffle", "sample", "choice", "randrange")
                     and isinstance(n.func.value, ast.Name) and n.func.value.id in env.vars
                     and env.vars[n.func.value.id][0] == "val" and n.func.value.id not in out):
                 out.append(n.func.value.id)
@@ -843,6 +1008,11 @@ class Fn:
         if not isinstance(s.op, ast.Add):
             raise Unsupported("%s: augmented assignment operator" % self.name)
         tgt = s.target
+        if isinstance(tgt, ast.Name) and tgt.id in env.vars and env.vars[tgt.id][0] == "val" \
+                and env.vars[tgt.id][2][0] == "list" and tgt.id not in [p[0] for p in self.params]:
+            v = env.vars[tgt.id]
+            return self.cexpr(s.value, env, lambda at, aty, e1: "(let %s := (%s ++ %s) in\n  %s)"
+                              % (tgt.id, v[1], self.coerce(at, aty, v[2]), nxt(e1.bind(tgt.id, tgt.id, v[2]))))
         if isinstance(tgt, ast.Name):
             v = env.vars.get(tgt.id)
             if not v or v[0] != "val" or v[2] != INT:
@@ -871,7 +1041,7 @@ class Fn:
         if s.finalbody or len(s.handlers) != 1 or len(s.body) != 1:
             raise Unsupported("%s: try form" % self.name)
         h = s.handlers[0]
-        if h.name or not (len(h.body) == 1 and isinstance(h.body[0], ast.Pass)):
+        if h.name or not (len(h.body) == 1 and isinstance(h.body[0], (ast.Pass, ast.Return))):
             raise Unsupported("%s: except body" % self.name)
         if h.type is None:
             caught = None
@@ -882,7 +1052,7 @@ class Fn:
         b = s.body[0]
         if not isinstance(b, (ast.Assign, ast.AugAssign, ast.Expr)):
             raise Unsupported("%s: try body" % self.name)
-        self.handlers.append((caught, lambda e1: nxt(env)))
+        self.handlers.append((caught, lambda e1: self.block(list(h.body), env, nxt)))
         try:
             # the protected statement; what follows it (else-part, rest) is compiled unprotected
             depth = len(self.handlers)
@@ -909,8 +1079,6 @@ class Fn:
         return vals[0] if len(vals) == 1 else "(%s)" % ", ".join(vals)
 
     def for_stmt(self, s, env, nxt):
-        if self.loop:
-            raise Unsupported("%s: nested for" % self.name)
         if self.handlers:
             raise Unsupported("%s: for inside try" % self.name)
         # loop-carried locals: assigned in the body and defined before the loop
@@ -919,7 +1087,8 @@ class Fn:
             if isinstance(n, ast.Name) and isinstance(n.ctx, ast.Store) and n.id not in assigned:
                 assigned.append(n.id)
         for n in ast.walk(ast.Module(body=list(s.body), type_ignores=[])):
-            if (isinstance(n, ast.Call) and isinstance(n.func, ast.Attribute) and n.func.attr == "append"
+            if (isinstance(n, ast.Call) and isinstance(n.func, ast.Attribute)
+                    and n.func.attr in ("append", "shuffle", "sample", "choice", "randrange")
                     and isinstance(n.func.value, ast.Name) and n.func.value.id in env.vars
                     and env.vars[n.func.value.id][0] == "val" and n.func.value.id not in assigned):
                 assigned.append(n.func.value.id)
@@ -930,11 +1099,24 @@ class Fn:
                 raise Unsupported("%s: loop re-binds list alias %s" % (self.name, n))
         escaping = [n for n in assigned if n not in env.vars and n not in targets]
 
+        # a LIVE list object: alias / x._child_nodes / enumerate(of one)
+        live_src = s.iter
+        live_enum = False
+        if (isinstance(live_src, ast.Call) and isinstance(live_src.func, ast.Name) and live_src.func.id == "enumerate"
+                and len(live_src.args) == 1 and not live_src.keywords):
+            live_src, live_enum = live_src.args[0], True
+        live_node = []
+        if (isinstance(live_src, ast.Name) and live_src.id in env.vars and env.vars[live_src.id][0] == "alias") \
+                or (isinstance(live_src, ast.Attribute) and live_src.attr == "_child_nodes"):
+            self.list_place(live_src, env, lambda node, e1: live_node.append(node) or "")
+        dirty_next = []
+
         def kiter(it, ity, e1):
             if ity[0] != "list":
                 raise Unsupported("%s: for over %r" % (self.name, ity))
             ety = ity[1]
             benv = e1.copy()
+            benv.dirty = False
             if isinstance(s.target, ast.Name):
                 pat = s.target.id
                 benv = benv.bind(pat, pat, ety)
@@ -950,7 +1132,8 @@ class Fn:
             self.loop.append(carried)
             outer_rebinds, self.rebinds_kids = self.rebinds_kids, False
             try:
-                body = self.block(list(s.body), benv, lambda e2: "(MOk (LNext %s) s)" % self.loop_tuple(e2))
+                body = self.block(list(s.body), benv,
+                                  lambda e2: (dirty_next.append(e2.dirty), "(MOk (LNext %s) s)" % self.loop_tuple(e2))[1])
             finally:
                 self.loop.pop()
                 body_rebinds = self.rebinds_kids
@@ -962,7 +1145,17 @@ class Fn:
                 after_env = after_env.bind(n, n, env.vars[n][2])
             for n in escaping + targets:
                 after_env.vars.pop(n, None)
-            loop = "mfor (fun %s %s s =>\n  %s) %s %s s" % (pat, vpat_b, body, it, init)
+            if live_node and any(dirty_next):
+                # some path changes the object graph and goes on iterating the live list: Python's iterator
+                if not isinstance(live_src, ast.Name) and live_node[0] not in [v[1] for v in env.vars.values() if v[0] == "val"]:
+                    raise Unsupported("%s: live loop over a list whose owner is not a variable" % self.name)
+                self.needs_fuel = True
+                rd = "(rd_kids G s %s)" % live_node[0]
+                if live_enum:
+                    rd = "(py_enumerate %s)" % rd
+                loop = "mfor_live fuel (fun s => %s) (fun %s %s s =>\n  %s) O %s s" % (rd, pat, vpat_b, body, init)
+            else:
+                loop = "mfor (fun %s %s s =>\n  %s) %s %s s" % (pat, vpat_b, body, it, init)
             bind = "" if not carried else "let %s := lctl_val dv_c in\n  " % vpat
             if s.orelse or any(isinstance(n, ast.Break) for n in ast.walk(ast.Module(body=list(s.body), type_ignores=[]))):
                 bn = "" if not carried else "let %s := dv_v in\n  " % vpat
@@ -992,6 +1185,10 @@ class Fn:
             return "Definition %s (s : mst G) %s : %s :=\n  %s." % (self.name, ptxt, coq_ty(self.ret), text)
         text = self.block(body, env, lambda e1: "(MOk %s s)" % self.none_of_ret())
         fuel = "(fuel : nat) " if self.needs_fuel else ""
+        fuel += "".join("(%s : %s) " % (n, coq_ty(t)) for n, t in self.IMPLICIT if n in self.implicit)
+        if self.recursive:
+            return ("Fixpoint %s %s%s (s : mst G) {struct fuel} : mres (mst G) %s :=\n  match fuel with\n  | O => MFuel\n  | S fuel =>\n  %s\n  end."
+                    % (self.name, fuel, ptxt, coq_ty(self.ret), text))
         return "Definition %s %s%s (s : mst G) : mres (mst G) %s :=\n  %s." % (self.name, fuel, ptxt, coq_ty(self.ret), text)
 
     def pure_body(self, stmts, env):
@@ -1005,6 +1202,10 @@ class Fn:
             if isinstance(s, ast.Return) and s.value is not None:
                 if isinstance(s.value, ast.Call) and isinstance(s.value.func, ast.Name) and s.value.func.id == "bool":
                     return self.cond(s.value.args[0], env, lambda e1: "true", lambda e1: "false")
+                if self.ret == BOOL and (isinstance(s.value, (ast.BoolOp, ast.Compare)) or
+                                         (isinstance(s.value, ast.UnaryOp) and isinstance(s.value.op, ast.Not))):
+                    # only the truth value of the result is used by the translated callers
+                    return self.cond(s.value, env, lambda e1: "true", lambda e1: "false")
                 return self.cexpr(s.value, env, lambda t, ty, e1: self.coerce(t, ty, self.ret))
             if isinstance(s, ast.If) and not s.orelse:
                 return self.cond(s.test, env, lambda e1: self.pure_body(list(s.body), e1),
@@ -1025,6 +1226,7 @@ PLAN = [
     ("Node", "_get_parent_node", "pure", TOpt(NODE), {}, None),
     ("Edge", "_get_head_node", "pure", NODE, {}, None),
     ("Edge", "_get_tail_node", "pure", TOpt(NODE), {}, None),
+    ("Edge", "is_internal", "pure", BOOL, {}, None),
     ("Node", "_set_parent_node", "eff", UNIT, {"parent": TOpt(NODE)}, None),
     ("Edge", "_set_tail_node", "eff", UNIT, {"node": TOpt(NODE)}, None),
     ("Node", "add_child", "eff", NODE, {"node": NODE}, None),
@@ -1054,6 +1256,32 @@ PLAN = [
      {"node": NODE, "update_bipartitions": BOOL, "suppress_unifurcations": BOOL}, None),
     ("Tree", "suppress_unifurcations", "eff", TList(TTup(NODE, NODE)), {"update_bipartitions": BOOL},
      {"update_bipartitions": False}, {"remapped_nodes": TList(TTup(NODE, NODE))}),
+    ("Node", "collapse_clade", "eff", UNIT, {}, None),
+    ("Node", "_convert_node_to_root_polytomy", "eff", TList(NODE), {}, None, {"ndl": TList(NODE)}),
+    ("Tree", "polytomize_root", "eff", UNIT, {"set_as_unrooted_tree": BOOL}, None),
+    ("Tree", "collapse_unweighted_edges", "eff", UNIT, {"threshold": INT, "update_bipartitions": BOOL}, None),
+    ("Tree", "randomly_rotate", "eff", UNIT, {"rng": RNG}, None),
+    ("Tree", "randomly_reorient", "eff", UNIT, {"rng": RNG, "update_bipartitions": BOOL}, None, None, ("reseed_at",)),
+    ("Tree", "prune_leaves_without_taxa", "eff", TList(NODE),
+     {"recursive": BOOL, "update_bipartitions": BOOL, "suppress_unifurcations": BOOL}, None,
+     {"nodes_removed": TList(NODE), "nodes_to_remove": TList(NODE)}, ("suppress_unifurcations",)),
+    ("Tree", "filter_leaf_nodes", "eff", TList(NODE),
+     {"filter_fn": NFN, "recursive": BOOL, "update_bipartitions": BOOL, "suppress_unifurcations": BOOL}, None,
+     {"nodes_removed": TList(NODE)}, ("suppress_unifurcations",)),
+    ("Tree", "prune_nodes", "eff", UNIT,
+     {"nodes": TList(NODE), "prune_leaves_without_taxa": BOOL, "update_bipartitions": BOOL,
+      "suppress_unifurcations": BOOL}, None),
+    ("Tree", "prune_taxa", "eff", UNIT,
+     {"taxa": TList(TAXON), "update_bipartitions": BOOL, "suppress_unifurcations": BOOL,
+      "is_apply_filter_to_leaf_nodes": BOOL, "is_apply_filter_to_internal_nodes": BOOL}, None,
+     {"nodes_to_remove": TList(NODE)}),
+    ("Tree", "prune_taxa_with_labels", "eff", UNIT,
+     {"labels": TList(INT), "update_bipartitions": BOOL, "suppress_unifurcations": BOOL,
+      "is_apply_filter_to_leaf_nodes": BOOL, "is_apply_filter_to_internal_nodes": BOOL}, None),
+    ("Tree", "retain_taxa", "eff", UNIT,
+     {"taxa": TList(TAXON), "update_bipartitions": BOOL, "suppress_unifurcations": BOOL}, None),
+    ("Tree", "retain_taxa_with_labels", "eff", UNIT,
+     {"labels": TList(INT), "update_bipartitions": BOOL, "suppress_unifurcations": BOOL}, None),
     # last: until here calls of reseed_at are calls of the interface operation
     ("Tree", "reseed_at", "eff", TOpt(NODE),
      {"new_seed_node": NODE, "update_bipartitions": BOOL, "collapse_unrooted_basal_bifurcation": BOOL,
@@ -1102,6 +1330,7 @@ def identity_eq(cls):
 
 class Generator:
     def __init__(self, repo):
+        self.repo = repo
         base = os.path.join(repo, "src", "dendropy", "datamodel")
         self.mods = {}
         for key, rel in (("Node", "treemodel/_node.py"), ("Tree", "treemodel/_tree.py"),
@@ -1128,6 +1357,12 @@ class Generator:
         want = ast.parse("return self.seed_node.postorder_iter(filter_fn=filter_fn)").body[0]
         if len(body) != 1 or dump(body[0]) != dump(want):
             raise Unsupported("Tree.postorder_node_iter is not the plain wrapper")
+
+    def check_wrapper(self, name, stmt):
+        f = find_method(self.classes["Tree"], name)
+        body = [x for x in f.body if not (isinstance(x, ast.Expr) and isinstance(x.value, ast.Constant))]
+        if len(body) != 1 or dump(body[0]) != dump(ast.parse(stmt).body[0]):
+            raise Unsupported("Tree.%s is not the plain wrapper" % name)
 
     def coq_name(self, cls, name, spec):
         base = "%s_%s" % (cls, name)
@@ -1174,6 +1409,10 @@ class Generator:
         check_always_truthy(mods, "Node")
         check_always_truthy(mods, "Edge")
         identity_eq(self.classes["Node"])
+        with open(os.path.join(self.repo, "src", "dendropy", "datamodel", "taxonmodel.py")) as f:
+            taxmod = ast.parse(f.read())
+        check_always_truthy([taxmod, self.mods["base"]], "Taxon")
+        identity_eq(find_class(taxmod, "Taxon"))
         out = ["(* GENERATED by py/dv/gen_mutators.py from datamodel/treemodel/_node.py, _edge.py, _tree.py",
                "   -- do not edit.  Meaning of the primitives: coq/Model/MutPrims.v *)",
                "From Coq Require Import ZArith List Bool.",
@@ -1194,7 +1433,7 @@ class Generator:
             key = (cls, meth, tuple(sorted((spec or {}).items())))
             self.registry[key] = {"coq": fn.name, "params": fn.params, "kind": kind, "ret": ret,
                                   "spec": tuple(sorted((spec or {}).items())), "rebinds_kids": fn.rebinds_kids,
-                                  "needs_fuel": fn.needs_fuel}
+                                  "needs_fuel": fn.needs_fuel, "implicit": list(fn.implicit)}
             out.append("(* %s.%s%s *)" % (cls, meth, (" with " + ", ".join("%s=%s" % kv for kv in spec.items())) if spec else ""))
             out.append(text)
             out.append("")
